@@ -157,7 +157,13 @@ func ruleTerm(c *Ctx, rule string, specs []entrySpec, minLoops int) {
 			if ok {
 				c.OK(rule, key, posOfBlock(h), "progress shape: "+shape)
 			} else {
-				c.Fail(rule, key, posOfBlock(h), "loop without a recognised progress shape ("+shape+"): termination needs a written argument")
+				// a loop is also known by what it calls, wherever a later change moves it: a written
+				// argument may be keyed "loopcalling/<module functions called in the body>"
+				var alt []string
+				if names := loopCallees(h, latches); len(names) > 0 {
+					alt = []string{"loopcalling/" + strings.Join(names, ",")}
+				}
+				c.FailVia(rule, key, posOfBlock(h), "loop without a recognised progress shape ("+shape+"): termination needs a written argument", alt)
 			}
 		}
 	}
@@ -324,4 +330,20 @@ func invariantIn(a *vn, in map[*ssa.BasicBlock]bool) bool {
 		}
 	}
 	return true
+}
+
+// loopCallees: the module functions called (statically) inside the natural loop of header h.
+func loopCallees(h *ssa.BasicBlock, latches []*ssa.BasicBlock) []string {
+	in := loopBlocks(h, latches)
+	set := map[string]bool{}
+	for b := range in {
+		for _, ins := range b.Instrs {
+			if call, ok := ins.(*ssa.Call); ok {
+				if sc := call.Call.StaticCallee(); sc != nil && sc.Pkg != nil && strings.HasPrefix(sc.Pkg.Pkg.Path(), modPath) {
+					set[funcName(sc)] = true
+				}
+			}
+		}
+	}
+	return keysSorted(set)
 }
